@@ -1,42 +1,40 @@
-import FstVerif.Model.Build
+import FstVerif.Proofs.Bounds
 /-
-C13 — construction memory (partial: the allocator and `Vec` capacity policy
-are measured by ./check, not modelled). Here: the cache never grows — its
-table keeps its number of buckets and every bucket its number of cells.
+C13 — construction memory is bounded independently of the number of keys.
+PARTIAL: the theorem bounds the sizes of the data structures the builder holds
+(unfinished-node stack, node cache, last key); the allocator and `Vec`
+capacity policy are not modelled and are MEASURED by ./check (counting
+allocator, growing N, several key shapes and sink behaviours). `s.out` models
+the bytes already handed to the writer and is deliberately not part of the
+footprint. Statements here; proofs in Proofs/BoundsBuild.lean.
 -/
-namespace Fst
+namespace Fst.Props
+open Fst Fst.Bounds
 
-theorem promote_length (cells : List Cell) (i : Nat) : (promote cells i).length = cells.length := by
-  unfold promote
-  cases h : cells[i]? with
-  | none => rfl
-  | some c =>
-    have hi : i < cells.length := by
-      rcases Nat.lt_or_ge i cells.length with h' | h'
-      · exact h'
-      · rw [List.getElem?_eq_none h'] at h; cases h
-    simp [List.length_eraseIdx, hi]; omega
+/-- on every state reachable from `BState.new rows cols` by accepted calls (`ks` = the
+accepted keys): stack depth = last key length + 1, every node held has ≤ 256 transitions,
+the cache keeps `rows` buckets of `cols` cells, and the footprint is bounded by a constant
+of the cache geometry, the maximal fan-out (256) and the longest key — with NO term in
+the number of keys inserted or bytes emitted -/
+theorem C13_footprint {rows cols : Nat} {ks : List Key} {s : BState} (h : ReachableK rows cols ks s) :
+    s.stack.length = (s.last.getD []).length + 1 ∧ s.stack.length ≤ maxKeyLen ks + 1 ∧
+    (∀ u ∈ s.stack, u.node.trans.length ≤ 256) ∧
+    s.reg.table.size = rows ∧ (∀ b ∈ s.reg.table.toList, b.length = cols) ∧
+    (∀ b ∈ s.reg.table.toList, ∀ c ∈ b, c.node.trans.length ≤ 256) ∧
+    footprint s ≤ (maxKeyLen ks + 1) * 257 + rows * cols * 257 + maxKeyLen ks :=
+  Fst.Bounds.C13_footprint h
 
-/-- one cache probe keeps the bucket's size: the cache holds at most rows × cols nodes -/
-theorem C13_bucket_size (cells : List Cell) (n : BNode) : (bucketEntry cells n).1.length = cells.length := by
-  unfold bucketEntry
-  split
-  · exact promote_length _ _
-  · dsimp only
-    split
-    · simp [promote_length]
-    · rfl
+/-- for a whole build: keys of length ≤ L give a footprint bound independent of how many -/
+theorem C13_footprint_map {rows cols L : Nat} {kvs : KV} {s : BState}
+    (h : insertAll (BState.new rows cols) kvs = .ok s) (hL : ∀ kv ∈ kvs, kv.1.length ≤ L) :
+    footprint s ≤ (L + 1) * 257 + rows * cols * 257 + L := C13_footprint_insertAll h hL
 
-/-- and the number of buckets -/
-theorem C13_table_size (r : Registry) (n : BNode) : (r.entry n).1.table.size = r.table.size := by
-  unfold Registry.entry
-  split
-  · rfl
-  · simp only []
-    split <;> simp
+theorem C13_footprint_set {rows cols L : Nat} {ks : List Key} {s : BState}
+    (h : addAll (BState.new rows cols) ks = .ok s) (hL : ∀ k ∈ ks, k.length ≤ L) :
+    footprint s ≤ (L + 1) * 257 + rows * cols * 257 + L := C13_footprint_addAll h hL
 
-theorem C13_insert_table_size (r : Registry) (b a : Nat) : (r.insert b a).table.size = r.table.size := by
-  unfold Registry.insert
-  split <;> simp
+/-- every reachable state is covered -/
+theorem C13_all_reachable {s : BState} (h : Reachable s) : ∃ rows cols ks, ReachableK rows cols ks s :=
+  reachable_reachableK h
 
-end Fst
+end Fst.Props
